@@ -8,6 +8,7 @@ import (
 	"strconv"
 	"strings"
 	"sync"
+	"sync/atomic"
 	"time"
 
 	"go.uber.org/zap"
@@ -80,7 +81,9 @@ type TCPServerTransport struct {
 	selfLearnRoute       *SelfLearnRoute
 	msgHandler           MessageHandler
 	connAcceptedListener ConnectionAcceptedListener
-	exit                 bool
+	// 1 once the receive goroutine of a connection-bound transport has ended;
+	// written by that goroutine, read by the proxy loop
+	exit int32
 }
 
 type ClientTransport interface {
@@ -485,7 +488,7 @@ func NewTCPServerTransport(addr string,
 		receivedSupport:      receivedSupport,
 		connAcceptedListener: connAcceptedListener,
 		selfLearnRoute:       selfLearnRoute,
-		exit:                 false,
+		exit:                 0,
 	}
 }
 
@@ -503,7 +506,7 @@ func NewTCPServerTransportWithConn(conn net.Conn,
 			receivedSupport:      receivedSupport,
 			connAcceptedListener: nil,
 			selfLearnRoute:       selfLearnRoute,
-			exit:                 false,
+			exit:                 0,
 		}
 	}
 	return nil
@@ -561,7 +564,7 @@ func (t *TCPServerTransport) receiveMessage(conn net.Conn) {
 		t.msgHandler.HandleRawMessage(rawMsg)
 	}
 	if t.conn != nil {
-		t.exit = true
+		atomic.StoreInt32(&t.exit, 1)
 	}
 }
 
@@ -582,6 +585,6 @@ func (t *TCPServerTransport) GetPort() int {
 }
 
 func (u *TCPServerTransport) IsExit() bool {
-	return u.conn != nil && u.exit
+	return u.conn != nil && atomic.LoadInt32(&u.exit) != 0
 }
 
